@@ -171,6 +171,40 @@ Example C29_binop_nonvacuous :
   = RErr ErrDupRight.
 Proof. vm_compute. split; reflexivity. Qed.
 
+(* Vector/scalar operators (VectorscalarBinop + the same-labelset check) are the documented
+   element-wise operation: arithmetic drops the metric name, comparison filters keeping the
+   vector element's value (also when the scalar is on the left), bool yields 0/1 and drops
+   the name.  Hypothesis: the parser only allows bool on comparison operators. *)
+Theorem C29_vector_scalar : forall ovf op rb swap sc v,
+  (rb = true -> is_cmp op = true) ->
+  vector_scalar_binop ovf op rb swap sc v = check_same (spec_vs ovf op rb swap sc v).
+Proof. exact vector_scalar_spec. Qed.
+
+Example C29_vector_scalar_nonvacuous :
+  vector_scalar_binop (fun _ => false) OLt false true (FFin 2)
+     [([(name_lbl, [109%N])], FFin 3); ([(name_lbl, [110%N])], FFin 1); ([], FNaN)]
+  = RVec [([(name_lbl, [109%N])], FFin 3)].
+Proof. vm_compute. reflexivity. Qed.
+
+(* count_values: every input series is represented, and every output series carries exactly
+   the number of input series whose value-labelled, projected label set it is (never 0),
+   for every formatting oracle. *)
+Theorem C29_count_values_exact : forall fmt wo g vl v out,
+  agg_count_values fmt wo g vl v = RVec out ->
+  let keyof (s : sample) := group_key wo (if wo then g else vl :: g) (lset vl (fmt (snd s)) (fst s)) in
+  (forall s, In s v -> In (keyof s) (map fst out)) /\
+  forall k c, In (k, c) out ->
+    c = fz (Z.of_nat (length (filter (fun s => labels_eqb (keyof s) k) v))) /\
+    (1 <= length (filter (fun s => labels_eqb (keyof s) k) v))%nat.
+Proof. exact count_values_exact. Qed.
+
+Example C29_count_values_nonvacuous :
+  let fmt (v : fval) : str := match v with FFin q => if Qeq_bool q 1 then [49%N] else [50%N] | _ => [78%N] end in
+  agg_count_values fmt false [] [118%N]
+    [([([97%N], [49%N])], FFin 1); ([([97%N], [50%N])], FFin 2); ([([97%N], [51%N])], FFin 1)]
+  = RVec [([([118%N], [49%N])], fz 2); ([([118%N], [50%N])], fz 1)].
+Proof. vm_compute. reflexivity. Qed.
+
 (* FINDING.  Documented: fill_left(v) supplies v as the missing LEFT operand, fill_right(v) as
    the missing RIGHT operand.  The faithful model (VectorBinop swaps the operand lists for
    group_right but keeps using FillValues.RHS for the first loop and FillValues.LHS for the
